@@ -166,8 +166,8 @@ INVARIANTS = ['C06_LoosePublishedDurable', 'C06_RowsOverDurableBytes', 'C06_Acke
 
 def check(report: common.Report):
     thorough = report.tier == 'thorough'
-    n = len(scenarios.all_scenarios(thorough))
-    traces = common.pmap(run_scenario, [(i, thorough) for i in range(n)])
+    all_sc = scenarios.all_scenarios(thorough)
+    traces = common.pmap(run_scenario, [(i, thorough) for i in range(len(all_sc)) if all_sc[i].default_sync])
     with common.scratch('dum') as work:
         trace_file = os.path.join(work, 'dur.ndjson')
         with open(trace_file, 'w', encoding='utf8') as handle:
